@@ -27,7 +27,7 @@ ASSUMPTIONS = ["env.X is by definition the published transformed table; tables w
                "(3 + 2*window days) are not 'daily or finer' and are not generated",
                "a configuration with too little data may be refused at construction (counted as config-rejected)"]
 REQUIRED = ["C18:observation", "C18:bounds", "C18:step-date", "C18:quotes", "C18:rate", "C18:full-window", "C18:published-table"]
-REQUIRED_CATS = ["last-date-is-a-holiday", "fold-after-holiday-cluster", "rate-off-price-dates", "window>1", "stride", "late-fold", "calendar:LSE", "calendar:NYSE", "transformer:None", "transformer:z-score",
+REQUIRED_CATS = ["earlier-fold-after-later-fold", "last-date-is-a-holiday", "fold-after-holiday-cluster", "rate-off-price-dates", "window>1", "stride", "late-fold", "calendar:LSE", "calendar:NYSE", "transformer:None", "transformer:z-score",
                  "transformer:yeo-johnson"]
 TECHNIQUE = "runtime monitoring: observations, quotes and step dates of real episodes compared at every call with the tables the environment was given"
 LEVEL_TEXT = ("Exploration over generated table shapes and options; at every call of every episode the observation, the traded quotes, "
@@ -103,6 +103,9 @@ def case(ctx, i, tier):
     if r.random() < 0.4:
         a = dY[r.randint(n // 3, n // 2)]
         folds = {"training-set": [a.to_pydatetime(), dY[-1].to_pydatetime()]}
+        if r.random() < 0.6:
+            # ... and an EARLIER fold, played after the later one on the same environment
+            folds["early"] = [dY[0].to_pydatetime(), (a - pd.Timedelta(days=1)).to_pydatetime()]
     if around_new_year:
         # market data has no rows on exchange holidays; the fold starts right after the holiday cluster
         H0 = hol(cal)
@@ -217,13 +220,19 @@ def case(ctx, i, tier):
     ctx.cat("episode")
     ctx.notes["steps"] = k
     # a second episode on the same environment serves the same data again
+    early = bool(folds) and "early" in folds
     try:
-        obs = env.reset()
+        obs = env.reset("early") if early else env.reset()
     except Exception as ex:
+        if early:
+            ctx.cat("early-fold-refused")
+            return
         ctx.violation("C18:reset", error=repr(ex)[:300], episode=2)
         return
+    if early:
+        ctx.cat("earlier-fold-after-later-fold")
     done2 = ep.reset_ended_episode(env)
-    for j in range(3):
+    for j in range(12 if early else 3):
         now = env.now()
         Xp = env.X.loc[:now]
         exp = Xp.iloc[-window:].values
